@@ -146,7 +146,7 @@ func c03MutatedRerender(c C03Case) error {
 
 // ---- generator ------------------------------------------------------------------------------
 
-var c03Keys = []string{"a", "b", "c", "d", "e", "f", "g", "zz", "k1", "10", "9", "B", "_x", "ab", "1", "01", "1.0", "1e0", "+1", "0x1"}
+var c03Keys = []string{"a", "b", "c", "d", "e", "f", "g", "zz", "k1", "10", "9", "B", "_x", "ab", "1", "01", "1.0", "1e0", "+1", "0x1", "id", "ID", "Id", "AB", "Ab", "2", "1a"}
 
 func genMapDesc(t *rapid.T, depth int, label string) *E {
 	n := rapid.IntRange(2, 8).Draw(t, label+"n")
@@ -201,6 +201,9 @@ var c03MapForms = []string{
 	"{% for k, v in HASH|merge(M) %}{{ k }}{% endfor %}",
 	"{{ HASH|json_encode }}",
 	"{% include 'nothere' ignore missing with HASH only %}x",
+	// attribute access by a spelling that may or may not be a key (keys differing only in case exist)
+	"{{ M.iD }}|{{ M.id }}|{{ M.aB }}|{{ M['iD'] }}|{{ M.ID }}",
+	"{% for k in ['iD', 'id', 'aB', 'ab', 'B', 'b'] %}{{ M[k] }};{% endfor %}",
 	"{{ DUPHASH|json_encode }}",
 	"{% for k, v in DUPHASH %}{{ k }}{{ v }}{% endfor %}",
 	"{{ DUPHASH|keys|join }}{{ DUPHASH|first }}",
@@ -389,6 +392,47 @@ func TestC03Determinism(t *testing.T) {
 
 // TestC03Dates enumerates every ordered pair of format letters (18 x 18) and every single
 // letter on three instants.
+// TestC03LongRender: renders long enough for garbage collections to happen inside them, which
+// create and iterate short-lived maps in every pass (anything keyed by the address of such a
+// map would meet a reused address).
+func TestC03LongRender(t *testing.T) {
+	r := NewRec(t, "C03", "fixed long renders (6000-20000 loop passes, each creating and iterating a one- or two-entry hash literal with computed keys, or merging into one); oracle: the expected text computed by the harness; all cases non-trivial")
+	defer r.Flush()
+	r.SetExhaustive()
+	n := scale(6000, 20000)
+	var want1, want2 strings.Builder
+	for i := 1; i <= n; i++ {
+		fmt.Fprintf(&want1, "k%d=%d;", i, i)
+		fmt.Fprintf(&want2, "a%d,b%d;", i, i)
+	}
+	cases := []struct{ src, want string }{
+		{fmt.Sprintf("{%% for i in range(1, %d) %%}{%% for k, v in {('k' ~ i): i} %%}{{ k }}={{ v }};{%% endfor %%}{%% endfor %%}", n), want1.String()},
+		{fmt.Sprintf("{%% for i in range(1, %d) %%}{%% set h = {('b' ~ i): 1, ('a' ~ i): 2} %%}{{ h|keys|join(',') }};{%% endfor %%}", n), want2.String()},
+	}
+	for i, c := range cases {
+		r.Case(fmt.Sprint(i), true, trunc(c.src))
+		for round := 0; round < 2; round++ {
+			res := render1(c.src, map[string]interface{}{})
+			if res.Failed() || res.Out != c.want {
+				got := res.Out
+				d := 0
+				for d < len(got) && d < len(c.want) && got[d] == c.want[d] {
+					d++
+				}
+				r.FailEnum(t, "C03.det", C03Case{Src: c.src}, fmt.Errorf("long render %d (round %d): %s; first difference at byte %d: got …%s, want …%s", i, round+1, firstLine(res.Err), d, q(trunc(got[minInt(d, len(got)):])), q(trunc(c.want[minInt(d, len(c.want)):]))))
+				break
+			}
+		}
+	}
+}
+
+func minInt(a, b int) int {
+	if a < b {
+		return a
+	}
+	return b
+}
+
 func TestC03Dates(t *testing.T) {
 	r := NewRec(t, "C03", "exhaustive: every single date-format letter and every ordered pair of the 18 translated letters (with and without a ', ' between them) on three instants, against the harness's own letter-by-letter translator; each rendered 8 times; non-trivial = two letters")
 	defer r.Flush()
